@@ -23,11 +23,11 @@ PERM_SETS = {"quick": 24, "thorough": 12}
 CASES = {"quick": 1200 + PERM_SETS["quick"], "thorough": 12000 + PERM_SETS["thorough"]}
 FLOOR = {"quick": 1100, "thorough": 11000}
 FLOOR_COUNTERS = {
-    "quick": {"pointer_events": 20000, "gabriel_graphs_checked": 280, "permutation_fits": 24 * 120 + 1000, "periodic_fits": 300, "tie_free_relation_cases": 600, "refitted_estimators": 350, "other_length_units": 250, "small_length_units": 70, "cell_given_after_construction": 120, "free_space_fits_next_to_a_periodic_bystander": 200, "weights_as_ranks_in_another_dtype": 300, "legal_fits_after_refused_fits": 300},
-    "thorough": {"pointer_events": 250000, "gabriel_graphs_checked": 2800, "permutation_fits": 12 * 5040 + 10000, "periodic_fits": 3000, "tie_free_relation_cases": 6000, "refitted_estimators": 3500, "other_length_units": 2500, "small_length_units": 700, "cell_given_after_construction": 1200, "free_space_fits_next_to_a_periodic_bystander": 2000, "weights_as_ranks_in_another_dtype": 3500, "legal_fits_after_refused_fits": 3500},
+    "quick": {"ascent_paths_longer_than_log2_n_plus_1": 1500, "pointer_events": 20000, "gabriel_graphs_checked": 280, "permutation_fits": 24 * 120 + 1000, "periodic_fits": 300, "tie_free_relation_cases": 600, "refitted_estimators": 350, "other_length_units": 250, "small_length_units": 70, "cell_given_after_construction": 120, "free_space_fits_next_to_a_periodic_bystander": 200, "weights_as_ranks_in_another_dtype": 300, "legal_fits_after_refused_fits": 300},
+    "thorough": {"ascent_paths_longer_than_log2_n_plus_1": 15000, "pointer_events": 250000, "gabriel_graphs_checked": 2800, "permutation_fits": 12 * 5040 + 10000, "periodic_fits": 3000, "tie_free_relation_cases": 6000, "refitted_estimators": 3500, "other_length_units": 2500, "small_length_units": 700, "cell_given_after_construction": 1200, "free_space_fits_next_to_a_periodic_bystander": 2000, "weights_as_ranks_in_another_dtype": 3500, "legal_fits_after_refused_fits": 3500},
 }
 RULE = (
-    "case = point set (1-4 dimensions, 2-150 points [<= 60 in Gabriel mode]; generic / collinear / duplicated / lattice), "
+    "case = point set (1-4 dimensions, 2-150 points [<= 60 in Gabriel mode]; generic / collinear / duplicated / lattice / chains: points strung along a line with weights growing along it and a reach of one step, i.e. ascent paths of up to n-1 moves), "
     "distinct weights, mode cut-off (per-point cut-offs from 1e-3 to 10x the diameter, scale) | Gabriel (shell 1-4), optional "
     "periodic cell; 30% in other length units (x 2^-40..2^23, exact), 40% with the estimator fitted again after a fit on other data. The last PERM_SETS case indices enumerate ALL n! input orders of one n-point set (n = 5 quick / 7 "
     "thorough). non-trivial = more than one cluster and a point whose path has >= 2 steps; distinct by data hash."
